@@ -33,6 +33,13 @@ var Properties = map[string]func(*Ctx){
 	"C11": C11,
 	"C12": C12,
 	"C16": C16,
+	"C04": C04,
+}
+
+func C04(c *Ctx) {
+	R4QueueShape(c)
+	R4Lockset(c, sharedAgentQueue, 2)
+	R6Issue(c)
 }
 
 func C16(c *Ctx) {
